@@ -98,6 +98,19 @@ def _programs():
             True,
             True,
         )
+    # keys of different numeric dtypes on the two sides (cast before hashing), every join strategy
+    for how in ("inner", "left"):
+        add(
+            f"merge_float32_key_{how}",
+            lambda t, k, how=how: t.df[["a", "u"]].astype({"a": "float32"}).merge(t.df2[["a", "w"]].astype({"a": "float64"}), on="a", how=how, **_kw(broadcast=k["broadcast"], npartitions=k["npartitions"])),
+            lambda t, how=how: t.df[["a", "u"]].astype({"a": "float32"}).merge(t.df2[["a", "w"]].astype({"a": "float64"}), on="a", how=how),
+            {"broadcast": BROADCAST, "npartitions": NPART},
+            True,
+            True,
+        )
+    # set_index(drop=False) keeps the column for every partition count hint
+    add("set_index_keep_column", lambda t, k: t.df[["u", "a", "f"]].set_index("f", drop=False, **_kw(npartitions=k["npartitions"], upsample=k["upsample"])), lambda t: t.df[["u", "a", "f"]].set_index("f", drop=False), {"npartitions": [None, 1, 2, 7], "upsample": UPSAMPLE}, True)
+    add("set_index_keep_column_presorted", lambda t, k: t.df[["u", "a", "g"]].set_index("g", drop=False, **_kw(npartitions=k["npartitions"])), lambda t: t.df[["u", "a", "g"]].set_index("g", drop=False), {"npartitions": [None, 1, 2, 7]}, True)
     # normalised value counts of a column with missing values: the tree reduction and the shuffle reduction divide by a length
     for dropna in (True, False):
         add(
